@@ -1,5 +1,7 @@
 """C40 — chain queries agree with each other for every stored block."""
+import os
 import _ledgerquery as lq
+import vf
 
 
 def run(ctx):
@@ -23,8 +25,43 @@ def long_chain(ctx, binary, bits):
     n = 2100
     restarts = [1990, 2005, 2050]
     tp = lq.trace_run(ctx, binary, "c40-long", ntraces=1, mode="long", longn=n, restarts=restarts)
-    if tp:
-        v = lq.trace_check(ctx, tp, "C40-long", timeout=2400)
-        ctx.extra["long_chain_blocks"] = n
-        ctx.extra["long_chain_events_matched"] = v["matched"]
-        ctx.log("long chain (%d blocks): %d/%d events matched" % (n, v["matched"], v["total"]))
+    if not tp:
+        return
+    # every event of the long run: the (sampled) query views must name the committed chain.  Block ids are the sequences
+    # of shape names, so the event at height h carries O(h) data and TLC validates only a prefix of this trace; the
+    # window arithmetic itself is covered exhaustively by the model with W = 2 and by the replay above.
+    ev = vf.read_ndjson(tp)
+    names, nchk = [], 0
+    for k, e in enumerate(ev[1:], 1):
+        if e["event"] == "Submit" and e["res"] == "ok":
+            names.append(e["shape"]["name"])
+        bad = None
+        if e["res"] != "ok":
+            bad = ("result", e.get("res"))
+        elif e["problems"] or e["missed"]:
+            bad = ("views-disagree", {"problems": e["problems"], "missed": e["missed"]})
+        elif e["cur"] != len(names) or e["curId"] != names or e["hdrLast"] != len(names) or e["above"] != ["none"]:
+            bad = ("current", {"cur": e["cur"], "expected": len(names), "hdrLast": e["hdrLast"], "above": e["above"]})
+        else:
+            for v in e["views"]:
+                h = v["h"]
+                if v["id"] != names[:h] or v["hdrHeight"] != h or any(x != h for x in v["txh"]) or \
+                        (h > 0 and any(t[0] != names[:h] for t in v["body"])):
+                    bad = ("view", {"h": h, "id_len": len(v["id"]), "hdrHeight": v["hdrHeight"], "txh": v["txh"]})
+                    break
+                nchk += 1
+        if bad:
+            ctx.violation("long-chain:%s:%s" % (e["event"], bad[0]), {"event_index": k, "height": e.get("cur"), "detail": bad[1]},
+                          {"long_chain": {"n": n, "restarts": restarts}, "upto_event": k})
+            break
+    prefix = os.path.join(ctx.scratch, "trace-c40-long-prefix.ndjson")
+    with open(tp) as f, open(prefix, "w") as g:
+        for i, line in enumerate(f):
+            if i < 260:
+                g.write(line)
+    v = lq.trace_check(ctx, prefix, "C40-long", timeout=1500)
+    ctx.extra["long_chain_blocks"] = len(names)
+    ctx.extra["long_chain_views_checked"] = nchk
+    ctx.extra["long_chain_events_validated_by_tlc"] = v["matched"]
+    ctx.stats["traces"] += 1
+    ctx.log("long chain: %d blocks, %d sampled views compared with the committed chain; TLC validated the first %d events" % (len(names), nchk, v["matched"]))
